@@ -1064,7 +1064,7 @@ RULE = ('A case is a HISTORY on one of the four classes: constructor arguments, 
         '`p in c` and c[p] (get_canonical_key(p)) for every probe key are observed and compared with the extracted model, and judged by a '
         'plain-Python reference map (oracle). exhaustive_state_x_op: every reference state over the key/value alphabet (reached by setitem '
         'and, separately, by the constructor) x every operation with every argument; exhaustive_histories: every operation sequence up to '
-        'the depth bound over a 15-operation alphabet; exhaustive_constructor: every list of pairs up to the bound; random: histories of '
+        'the depth bound over a 15-operation alphabet; exhaustive_constructor: every list of pairs up to the bound; multi_*: histories over SEVERAL live containers (fn 3, 4): every reference state x 3 classes x every way of deriving a second container (lower(), cls(c), cls(c.items()), new.update(c)) x every mutating operation on either container, all live containers observed after every step; random: histories of '
         'length <= 60 over mixed-case keys of length 0..5 with digits, symbols and caseless non-ASCII characters. distinct = distinct '
         '(function, argument); non-trivial = the history passes through a non-empty container.')
 EXHAUSTIVE = {
